@@ -4,7 +4,7 @@ Writes seeded/matrix.json and fills meta.json['ran'] of each seed.  usage: seed_
 import json, os, subprocess, sys
 from pathlib import Path
 V = Path('/verif')
-ids = [f'C{i:02d}' for i in range(1, 21)]
+ids = os.environ.get('MATRIX_CHECKS', '').split() or [f'C{i:02d}' for i in range(1, 21)]
 seeds = sys.argv[1:] or [d.name for d in sorted((V / 'seeded').iterdir()) if (d / 'patch.diff').exists()]
 
 def sh(cmd, cwd=None):
@@ -18,6 +18,7 @@ for s in seeds:
     d = V / 'seeded' / s
     rc, o = sh(f'python3 tools/try_seed.py {d} --no-checks', cwd=V)
     conf = json.loads(o)
+    own = json.loads((d / 'meta.json').read_text())['property']
     row = {'confirmed': conf['confirmed'], 'tests': conf.get('tests'), 'checks': {}}
     if conf['confirmed']:
         rc, o = sh(f'git -C /repo apply {d}/patch.diff')
@@ -27,7 +28,7 @@ for s in seeds:
                 vl = [l for l in o.splitlines() if l.startswith('VIOLATION')]
                 concrete = [l for l in vl if 'no-failing-input-found' not in l]
                 row['checks'][c] = {'rc': rc, 'verdict': 'pass' if rc == 0 else ('concrete' if concrete else 'no-failing-input-found'), 'violations': len(vl)}
-                if rc and c == s:
+                if rc and c == own:
                     det = [l.strip()[:300] for l in o.splitlines() if l.startswith('  ')][:2]
                     row['first_report'] = det
         finally:
